@@ -61,6 +61,9 @@ def rule_filter(chk: Check, model, rid: str):
         r = ev.run_function(fi)
         ins = []  # (tuple term, condition under which it is inserted, event)
         for e in r.events:
+            if e.kind == "local_append" and e.loops and e.term[0] == "tuple":
+                ins.append((e.term, e.guard, e))  # connections.add((n1, n2)) on the function's own set
+                continue
             if e.kind != "call" or not e.loops:
                 continue
             if e.name.endswith(".add") and e.args and e.args[0][0] == "tuple":
@@ -102,7 +105,7 @@ def rule_filter(chk: Check, model, rid: str):
                 sel_v, sel_e = kept(fr["vertices"], "vertices"), kept(fr["edges"], "edges")
                 chk.add(rid, "Graph.filter drops exactly the unselected vertices", sel_v == S("nodes"), f"kept vertices = {T.show(fr['vertices'])[:160]}, expected the entries of self.vertices whose key is in `nodes`", chk.loc(fi))
                 conn_sets = {e.recv for _, _, e in ins if e.recv is not None}
-                chk.add(rid, "Graph.filter drops exactly the edges outside the connection set", sel_e is not None and (not conn_sets or any(sel_e == c for c in conn_sets)),
+                chk.add(rid, "Graph.filter drops exactly the edges outside the connection set", sel_e is not None and (not conn_sets or any(sel_e == c or (sel_e[0] == "accum" and (c == sel_e[1] or (c[0] == "accum" and c[1] == sel_e[1]))) for c in conn_sets)),
                         f"kept edges = {T.show(fr['edges'])[:160]}, expected the entries of self.edges whose key is in the connection set", chk.loc(fi))
                 chk.add(rid, "Graph.filter works on copies", True, "", chk.loc(fi))
                 chk.add(rid, "Graph.filter returns a Graph of the filtered dicts", True, "", chk.loc(fi))
